@@ -61,10 +61,14 @@ def cases(tier, seed):
         # many trajectories (more than any internal batching / folding size such as 32): only cheap shot-to-shot noise
         yield {"backend": be, "noise": "amplitude", "n": 33, "script": [[-1.5, 0.0, 2.0][k % 3] * (1 + k / 40) for k in range(33)], "shots": 1}
         for n in ns:
-            for noise in ("none", "relaxation", "amplitude", "detuning", "register", "eff_noise_only"):
+            for noise in ("none", "relaxation", "amplitude", "detuning", "register", "eff_noise_only", "same_jumps"):
                 if be == "mps" and noise == "relaxation" and n > 3:
                     continue
                 if tier == "quick" and be == "mps" and n == 4:
+                    continue
+                if noise == "same_jumps":
+                    if be == "mps" and n in (2, 3):
+                        yield {"backend": be, "noise": noise, "n": n, "script": [], "shots": 0}
                     continue
                 if noise == "eff_noise_only":
                     if be == "mps" and n <= 3:
@@ -105,6 +109,8 @@ def run_case(case):
     elif noise == "detuning":
         nm = pulser.NoiseModel(detuning_sigma=2.0)
         script = {"normal": [[z] for z in case["script"] for _ in range(2)]}
+    elif noise == "same_jumps":
+        nm = pulser.NoiseModel(relaxation_rate=30.0)  # strong decay: with threshold 0.9 every trajectory jumps early
     elif noise == "eff_noise_only":
         op = np.array([[0, 1], [0, 0]], dtype=complex)  # Pulser order (r, g): |r><g|, an excitation channel
         nm = pulser.NoiseModel(eff_noise_opers=[op], eff_noise_rates=[8.0])
@@ -138,13 +144,14 @@ def run_case(case):
             else:
                 cfg = m.MPSConfig(dt=10, precision=1e-8, observables=obs, n_trajectories=n, log_level=logging.CRITICAL, num_gpus_to_use=0, **kw)
                 # jump thresholds differ from trajectory to trajectory (0.9 -> early jump, 0.1 -> none, ...): the trajectories are distinguishable
-                with seams.module_random(impl_mod, seams.ScriptedRandom(uniforms=[0.9, 0.5, 0.1, 0.7, 0.3, 0.8, 0.2, 0.6, 0.4, 0.95, 0.05] * 3, default_uniform=0.35, default_choice=0)):
+                rng_script = seams.ScriptedRandom(default_uniform=0.9, default_choice=0) if noise == "same_jumps" else seams.ScriptedRandom(uniforms=[0.9, 0.5, 0.1, 0.7, 0.3, 0.8, 0.2, 0.6, 0.4, 0.95, 0.05] * 3, default_uniform=0.35, default_choice=0)
+                with seams.module_random(impl_mod, rng_script):
                     res = m.MPSBackend(seq, config=cfg).run()
     except Exception as e:
         return result(False, sig=f"raises|{be}|{noise}|{type(e).__name__}", msg=f"{label}: {type(e).__name__}: {str(e)[:300]}", outcome="raise")
     finally:
         backend_cls._run_from_sequence_data = orig
-    if case.get("custom_matrix") and noise == "SPAM" and len(captured) == n:
+    if noise == "SPAM" and n == 2 and len(captured) == n:
         # every trajectory on its own (fresh run, same mask) must give what it gave inside the multi-trajectory run
         for k, mk in enumerate(case["script"]):
             solo = []
@@ -172,6 +179,15 @@ def run_case(case):
                 cands = [np.real(runner.to_np(runner.get_at(c, "occupation", 1.0))).astype(float) for c in captured]
                 if min(np.abs(c - o_solo).max() for c in cands) > 1e-9:
                     return result(False, sig=f"trajectory-depends-on-others|{be}", msg=f"{label}: the trajectory with bad-atom mask {mk} gives occupation {np.round(o_solo, 6).tolist()} when run alone, but no trajectory of the multi-trajectory run does: {[np.round(c, 6).tolist() for c in cands]}", outcome="leak")
+    if noise == "same_jumps" and len(captured) == n:
+        # every trajectory received the same random answers: they must be the same trajectory (nothing may carry over from one to the next)
+        if not any(e[0] == "choices" for e in rng_script.log):
+            return result(False, sig="harness|no-jump", msg=f"{label}: the scripted trajectories contain no jump", outcome="nojump")
+        o0 = np.real(runner.to_np(runner.get_at(captured[0], "occupation", 1.0))).astype(float)
+        for k, c in enumerate(captured[1:], start=2):
+            ok_ = np.real(runner.to_np(runner.get_at(c, "occupation", 1.0))).astype(float)
+            if np.abs(ok_ - o0).max() > 1e-9:
+                return result(False, sig="trajectory-depends-on-earlier-ones|mps", msg=f"{label}: trajectory {k} got the same random answers as trajectory 1 but ends with occupation {np.round(ok_, 6).tolist()} instead of {np.round(o0, 6).tolist()}", outcome="carry")
     if len(captured) != n:
         return result(False, sig=f"count|{be}|{noise}", msg=f"{label}: {len(captured)} simulations ran for n_trajectories={n}", outcome="count")
     ids = tuple(seq.register.qubit_ids)
